@@ -5,9 +5,11 @@
 //     points (integer-lattice points and rational rotations from integer
 //     quaternions, dyadic scales, integer translations - exact in float too),
 //     or up to the rounding of B to T ("real" classes).  The result must be that
-//     transform: linear part and image of every point, tolerance
-//     C * eps * K with K = (largest coordinate) / (spread of the point set along
-//     its weakest determining direction).  For point sets that do not determine
+//     transform: linear part, translation and image of every point, tolerance
+//     C * eps * K with K = big * spread1 / spread2^2 (big: largest coordinate,
+//     spread_i: weighted RMS extent of A along its i-th principal axis), the
+//     conditioning of the singular vectors the rotation is built from; K > 1e6
+//     is counted and skipped.  For point sets that do not determine
 //     the rotation (1 point, collinear) only "maps every A_i onto B_i" is judged.
 // (2) "optimal" sub-checks: no exact transform exists; the result must be a
 //     proper (det > 0) uniformly scaled rotation + translation, and none of 64
@@ -28,10 +30,11 @@ using namespace IMATH_NAMESPACE;
 namespace
 {
 
-// calibrated constants (measured worst ratios: lib/props.d/c12.py)
-const LD C_EXACT     = 4096;  // exact classes: errors in units of eps_double * K
+// calibrated constants; worst ratios observed on the pristine tree (thorough tier): exact classes 8.2,
+// rounded classes 0.29 (float) / 4.6 (double), structure 2.7e-15, residual gain: never positive
+const LD C_EXACT     = 128;   // exact classes: errors in units of eps_double * K
 const LD C_ROUNDED   = 64;    // "real" classes: units of eps_T * K (B is rounded to T)
-const LD C_STRUCT    = 1e-12; // |L L^T / s^2 - I|, |s - 1| without scaling (double arithmetic inside)
+const LD C_STRUCT    = 1e-13; // |L L^T / s^2 - I|, |s - 1| without scaling (double arithmetic inside)
 const LD TOL_IMPROVE_REL = 1e-9;  // allowed residual reduction relative to the residual
 const LD TOL_IMPROVE_ABS = 1e-22; // ... plus this times sum w |u||v|
 
@@ -229,7 +232,9 @@ gen_exact (Rng& r, uint64_t idx, Data<T>& d, const char*& cls, bool& rounded)
         bool axis_basis = r.coin ();
         LD off[3] = {(LD) r.range (-10, 10), (LD) r.range (-10, 10), (LD) r.range (-10, 10)};
         LD s = 1;
-        if (k == 1) { static const LD ss[6] = {0.25L, 0.5L, 2, 3, 5, 0.125L}; s = ss[r.range (0, 5)]; }
+        // similarity: always in class 1, and in half of the doScale cases of every other lattice class
+        // (2 points, collinear, coplanar, zero weights, ...): the scale must be recovered there too
+        if (k == 1 || (d.doScale && r.coin ())) { static const LD ss[6] = {0.25L, 0.5L, 2, 3, 5, 0.125L}; s = ss[r.range (0, 5)]; }
         for (int j = 0; j < 3; ++j) d.t[j] = (LD) r.range (-1000, 1000);
         d.s = s;
         for (int i = 0; i < 3; ++i) for (int j = 0; j < 3; ++j) d.R[i][j] = Rn[i][j] / nn;
@@ -317,10 +322,14 @@ sub_exact (Ctx& c, uint64_t idx)
     LD   sgot = judge_structure (c, fn, idx, M, d.doScale, describe);
     if (sgot < 0) return;
     Stats st = stats (d, d.s);
-    // conditioning: largest coordinate over the spread along the weakest direction that determines the rotation
-    LD spread = rank >= 2 ? sqrtl (st.lamA[1] / st.W) : rank == 1 ? sqrtl (st.lamA[0] / st.W) : 0;
-    LD K      = (rank == 0 || st.big == 0) ? 1 : std::max ((LD) 1, st.big / (d.s * spread));
-    if (rank >= 1 && !(spread > 0)) { c.cls ("skipped_degenerate_by_rounding"); return; }
+    // conditioning of the problem.  The library centres the points (absolute error eps*big per coordinate),
+    // accumulates C = sum w (b-bc)(a-ac)^T (singular values W s spread_i^2) and takes the singular vectors of
+    // the two largest singular values: rotation error ~ eps * big * spread1 / spread2^2 (rank >= 2), resp.
+    // eps * big / spread1 for a collinear set (only the direction of the line is determined).
+    LD sp1 = sqrtl (st.lamA[0] / st.W) * d.s, sp2 = sqrtl (st.lamA[1] / st.W) * d.s;
+    if ((rank >= 1 && !(sp1 > 0)) || (rank >= 2 && !(sp2 > 0))) { c.cls ("skipped_degenerate_by_rounding"); return; }
+    LD K = (rank == 0 || st.big == 0) ? 1 : std::max ((LD) 1, rank >= 2 ? st.big * sp1 / (sp2 * sp2) : st.big / sp1);
+    if (K > 1e6L) { c.cls ("skipped_illconditioned_point_set"); return; }
     LD unit = (rounded ? epsT<T> () : EPS_D) * K;
     LD C    = rounded ? C_ROUNDED : C_EXACT;
     Mat<4> m = toLD (M);
@@ -360,6 +369,22 @@ sub_exact (Ctx& c, uint64_t idx)
 }
 
 // =================================================================== (2) first-order optimality
+struct Thetas
+{
+    LD th[9], sn[9], omc[9];
+    Thetas ()
+    {
+        for (int i = 0; i < 9; ++i)
+        {
+            th[i]  = powl (10.0L, -(LD) i);
+            sn[i]  = sinl (th[i]);
+            LD hc  = sinl (th[i] / 2);
+            omc[i] = 2 * hc * hc; // 1 - cos without cancellation
+        }
+    }
+};
+const Thetas thetas;
+
 enum { NOPT = 8 };
 const char* const opt_names[NOPT] = {"noise_small", "noise_medium", "unrelated", "reflected", "coplanar_noise", "affine_nonrigid", "rounded_exact", "collinear_noise"};
 
@@ -468,7 +493,7 @@ sub_optimal (Ctx& c, uint64_t idx)
         Mat<3> N2 = mul (N, N);
         for (int ti = 1; ti <= 8; ++ti)
         {
-            LD th = powl (10.0L, -(LD) ti), sn = sinl (th), hc = sinl (th / 2), omc = 2 * hc * hc; // 1 - cos
+            LD th = thetas.th[ti], sn = thetas.sn[ti], omc = thetas.omc[ti]; // sin, 1 - cos
             LD gain = 0; // E0 - E(dR) = 2 tr((dR - I)^T K)
             for (int j = 0; j < 3; ++j) for (int q = 0; q < 3; ++q) gain += (sn * N[j][q] + omc * N2[j][q]) * K[j][q];
             gain *= 2;
@@ -489,12 +514,12 @@ void exd (Ctx& c, uint64_t i) { sub_exact<double> (c, i); }
 void opf (Ctx& c, uint64_t i) { sub_optimal<float> (c, i); }
 void opd (Ctx& c, uint64_t i) { sub_optimal<double> (c, i); }
 
-#define EX_REQ {"lattice_rigid", "lattice_similarity", "real_rigid", "real_similarity", "single_point", "two_points", "collinear", "coplanar", "zero_weights", "coincident_points", "many_points", "wide_weights", "weighted", "unweighted", "doScale", "rigid", "rotation_not_determined_points_only", "skipped_scale_not_unique"}
+#define EX_REQ {"lattice_rigid", "lattice_similarity", "real_rigid", "real_similarity", "single_point", "two_points", "collinear", "coplanar", "zero_weights", "coincident_points", "many_points", "wide_weights", "weighted", "unweighted", "doScale", "rigid", "rotation_not_determined_points_only", "skipped_scale_not_unique", "skipped_illconditioned_point_set"}
 #define OPT_REQ {"noise_small", "noise_medium", "unrelated", "reflected", "coplanar_noise", "affine_nonrigid", "rounded_exact", "weighted", "unweighted", "doScale", "rigid", "best_orthogonal_map_is_a_reflection", "skipped_optimum_not_unique"}
 
 } // namespace
 
-MON_SUB_IDX (exf, "procrustes_exact_float", 240000, 12000000).req (EX_REQ).over ("1..200 points; B = s*A*R + t exactly (integer lattice points, rational rotations from integer quaternions, dyadic scales) or rounded to float; single point, 2 points, collinear, coplanar, coincident, zero weights, weights 2^-12..2^12; weighted x doScale");
-MON_SUB_IDX (exd, "procrustes_exact_double", 240000, 12000000).req (EX_REQ).over ("1..200 points; B = s*A*R + t exactly (integer lattice points, rational rotations from integer quaternions, dyadic scales) or rounded to double; single point, 2 points, collinear, coplanar, coincident, zero weights, weights 2^-12..2^12; weighted x doScale");
-MON_SUB_IDX (opf, "procrustes_optimal_float", 160000, 10000000).req (OPT_REQ).over ("1..24 points, B = noisy / unrelated / reflected / affine image of A; 64 rotations (8 axes x 1e-1..1e-8 rad) about the centroid of B must not reduce the weighted residual");
-MON_SUB_IDX (opd, "procrustes_optimal_double", 160000, 10000000).req (OPT_REQ).over ("1..24 points, B = noisy / unrelated / reflected / affine image of A; 64 rotations (8 axes x 1e-1..1e-8 rad) about the centroid of B must not reduce the weighted residual");
+MON_SUB_IDX (exf, "procrustes_exact_float", 480000, 14400000).req (EX_REQ).over ("1..200 points; B = s*A*R + t exactly (integer lattice points, rational rotations from integer quaternions, dyadic scales) or rounded to float; single point, 2 points, collinear, coplanar, coincident, zero weights, weights 2^-12..2^12; weighted x doScale");
+MON_SUB_IDX (exd, "procrustes_exact_double", 480000, 14400000).req (EX_REQ).over ("1..200 points; B = s*A*R + t exactly (integer lattice points, rational rotations from integer quaternions, dyadic scales) or rounded to double; single point, 2 points, collinear, coplanar, coincident, zero weights, weights 2^-12..2^12; weighted x doScale");
+MON_SUB_IDX (opf, "procrustes_optimal_float", 320000, 9600000).req (OPT_REQ).over ("1..24 points, B = noisy / unrelated / reflected / affine image of A; 64 rotations (8 axes x 1e-1..1e-8 rad) about the centroid of B must not reduce the weighted residual");
+MON_SUB_IDX (opd, "procrustes_optimal_double", 320000, 9600000).req (OPT_REQ).over ("1..24 points, B = noisy / unrelated / reflected / affine image of A; 64 rotations (8 axes x 1e-1..1e-8 rad) about the centroid of B must not reduce the weighted residual");
